@@ -3,7 +3,8 @@
 # Rebuilds the checker against /repo's current working tree, then runs it.
 set -u
 export GOFLAGS=-mod=mod GOPROXY=off GOSUMDB=off GOTOOLCHAIN=local TZ=UTC
-V=/verif
+V="$(cd "$(dirname "$0")" && pwd)"
+export VERIF_DIR="$V"
 BIN=$V/.cache/bin
 mkdir -p "$BIN" "$V/evidence" "$V/replays" "$V/.cache/tmp"
 build() {
